@@ -65,8 +65,10 @@ def _convertCFF2ToCFF(cff, otFont):
     defaults = buildDefaults(privateDictOperators)
     order = buildOrder(privateDictOperators)
     for fd in fdArray:
-        fd.setCFF2(False)
+        # The Private DICT and its local Subrs INDEX are read lazily, in the
+        # format the FontDict says it is in: fetch it while that is still CFF2.
         privateDict = fd.Private
+        fd.setCFF2(False)
         privateDict.order = order
         for key in order:
             if key not in privateDict.rawDict and key in defaults:
